@@ -848,4 +848,151 @@ def readEverything (root : T) : T × List (Path × LeafMap × List Path) :=
     | (t', some v) => (t', acc.2 ++ [(p, v.1, v.2)])
     | (t', none) => (t', acc.2)) (root, [])
 
+/-! ### `notify_on_change` is a thread-local stack of scopes; two trees (flags.py)
+
+`pg.notify_on_change(v)` pushes `v` on a stack that belongs to the calling thread
+(`thread_local_value_scope`); `is_change_notification_enabled()` reads the innermost entry of the
+calling thread's stack, True when the thread is inside no such scope. -/
+
+/-- Per thread: the scopes it is inside of, innermost first. -/
+abbrev NStacks := Nat → List Bool
+
+def switchOn (st : List Bool) : Bool := st.head?.getD true
+
+inductive NAct where
+  | enter (v : Bool) | leave
+  deriving Repr
+
+def NAct.apply (st : List Bool) : NAct → List Bool
+  | .enter v => v :: st
+  | .leave => st.tail
+
+def NStacks.act (ts : NStacks) (t : Nat) (a : NAct) : NStacks :=
+  fun i => if i = t then NAct.apply (ts t) a else ts i
+
+/-- One step of a history of several threads over two trees: thread `t` enters / leaves a scope, or
+makes a call on a node of one of the trees (`wrapper = false`: the call is `rebind(...,
+skip_notification=True)`-like, silenced by the caller itself). -/
+inductive NStep where
+  | scope (t : Nat) (a : NAct)
+  | call (t : Nat) (inExt : Bool) (recv : Path) (wrapper : Bool) (op : Op)
+
+structure NState where
+  stacks : NStacks
+  tree : T
+  ext : T
+
+def stepN (s : NState) : NStep → NState × Out
+  | .scope t a => ({ s with stacks := s.stacks.act t a }, { tree := s.tree, ok := true, events := [] })
+  | .call t inExt recv w op =>
+    let on := w && switchOn (s.stacks t)
+    if inExt then
+      let o := step s.ext recv on op
+      ({ s with ext := o.tree }, o)
+    else
+      let o := step s.tree recv on op
+      ({ s with tree := o.tree }, o)
+
+def runN : NState → List NStep → NState
+  | s, [] => s
+  | s, x :: rest => runN (stepN s x).1 rest
+
+/-- The scope actions of thread `t` in a history, in order. -/
+def ownNActs (t : Nat) : List NStep → List NAct
+  | [] => []
+  | .scope u a :: rest => if u = t then a :: ownNActs t rest else ownNActs t rest
+  | .call _ _ _ _ _ :: rest => ownNActs t rest
+
+/-! ### Writes that a value spec REJECTS (pg.typing; dict.py `_set_item_without_permission_check`)
+
+The field of the owner decides: `Int(min_value=…)` refuses non-integers (TypeError) and too small
+integers (ValueError); a field with a fixed Dict schema refuses non-dicts and badly typed items
+(TypeError / ValueError) and keys the schema does not have (KeyError); an `Object(cls)` field refuses
+everything but instances of the class (TypeError); None where the field is not noneable is a
+ValueError. A refused write raises and leaves the tree as it
+was: the old value stays where it is, attached as before (the `except` branch re-attaches it). -/
+
+inductive RejErr where
+  | key | type | value
+  deriving DecidableEq, Repr
+
+inductive LeafTy where
+  | any | int (min : Option Int)
+  deriving Repr
+
+inductive FieldTy where
+  | leaf (l : LeafTy)
+  | dict (fields : List (Key × LeafTy))
+  | obj (classes : List Nat)
+  deriving Repr
+
+def LeafTy.check : LeafTy → T → Option RejErr
+  | .any, _ => none
+  | .int mn, .leaf (.int i) => if (match mn with | some m => decide (m ≤ i) | none => true) then none else some .value
+  | .int _, .leaf .none => some .value        -- "Value cannot be None"
+  | .int _, _ => some .type
+
+def checkItems (fields : List (Key × LeafTy)) : List (Key × T) → Option RejErr
+  | [] => none
+  | (k, v) :: rest =>
+    match fields.find? (fun f => f.1 == k) with
+    | none => some .key
+    | some f => match f.2.check v with
+      | some e => some e
+      | none => checkItems fields rest
+
+def FieldTy.check : FieldTy → T → Option RejErr
+  | .leaf l, v => l.check v
+  | .dict fs, .node _ .dict items => checkItems fs items
+  | .dict _, .leaf .none => some .value
+  | .dict _, _ => some .type
+  | .obj cs, .node m .obj _ => if cs.contains m.cls then none else some .type
+  | .obj _, .leaf .none => some .value
+  | .obj _, _ => some .type
+
+/-- class of the owner → field → what the field accepts (classes / fields not named: anything). -/
+abbrev Rules := Nat → Key → FieldTy
+
+/-- The single location a call writes (owner, key, value) — the calls of the rejected-write histories:
+an accessor write, a one-pair rebind (from the owner or an ancestor), a one-key `update`. -/
+def singleTarget (recv : Path) : Op → Option (Path × Key × T)
+  | .setKey k v => some (recv, k, v)
+  | .update [(k, v)] => some (recv, k, v)
+  | .rebind [(p, v)] => match p.getLast? with
+    | some k => some (recv ++ p.dropLast, k, v)
+    | none => none
+  | _ => none
+
+def rejection (rules : Rules) (root : T) (recv : Path) (op : Op) : Option RejErr :=
+  match singleTarget recv op with
+  | some (owner, k, v) =>
+    match getAt root owner with
+    | some (.node m _ _) => (rules m.cls k).check v
+    | _ => none
+  | none => none
+
+/-- One public call, value specs included: refused → nothing happens (`ok = false`, no event, the same
+tree); otherwise `step`. -/
+def stepV (rules : Rules) (root : T) (recv : Path) (notifyOn : Bool) (op : Op) : Out :=
+  match rejection rules root recv op with
+  | some _ => { tree := root, ok := false, events := [] }
+  | none => step root recv notifyOn op
+
+structure VCall where
+  recv : Path
+  notifyOn : Bool
+  op : Op
+
+def runV (rules : Rules) : T → List VCall → T
+  | t, [] => t
+  | t, c :: rest => runV rules (stepV rules t c.recv c.notifyOn c.op).tree rest
+
+/-- The history without the calls that were refused when their turn came. -/
+def keepAccepted (rules : Rules) : T → List VCall → List VCall
+  | _, [] => []
+  | t, c :: rest =>
+    match rejection rules t c.recv c.op with
+    | some _ => keepAccepted rules t rest
+    | none => c :: keepAccepted rules (step t c.recv c.notifyOn c.op).tree rest
+
 end Pg.C09
